@@ -74,6 +74,12 @@
 // started. Each raise site is also driven over a receiver x argument lattice
 // with the ES5 step order as the model (lattice.go).
 //
+// Only a call of the built-in eval through the identifier eval is a direct eval;
+// any other value called through a name spelled eval / Function / arguments is an
+// ordinary call with its own frame. The frame of a native that raises is listed
+// (required), except where the tests pin its absence (Error("x") pops it; direct
+// eval enters no scope).
+//
 // Code created by the Function constructor has no file in otto and the tests
 // pin nothing for it: such frames must be present with the right name, their
 // location is not asserted. At most `limit` frames are listed
@@ -317,6 +323,7 @@ func aux(g *gen, c tcase) map[string]string {
 		"has_evaldone": b(g.hasEvalDone),
 		"group":        g.k.group,
 		"construct":    g.k.id,
+		"unprintable":  b(g.k.unprintable),
 		"class":        g.k.class,
 		"shapes":       shapesID(c.shapes),
 		"limit":        fmt.Sprint(c.limit),
@@ -395,6 +402,12 @@ func runTrace(r *engine.Run, c tcase) {
 	}
 	if expText != obsText {
 		r.Mismatch(engine.Mismatch{Key: key + "#text", Input: input, Expected: expText, Observed: obsText, Aux: ax})
+		if text != k.class && !strings.HasPrefix(text, k.class+": ") {
+			// an error of another class surfaced: its trace is not the one modelled
+			r.Eval(true)
+			r.Outcome(text)
+			return
+		}
 	}
 	// e.stack seen by a catch clause on a runtime of the same origin obeys the same limit
 	if c.origin != originFresh && c.limit >= 1 && (stackLines < 1 || stackLines > c.limit) {
@@ -595,6 +608,9 @@ func runSingle(r *engine.Run) {
 	for _, ki := range ks {
 		for _, sh := range sl {
 			for li, lay := range lays {
+				if !r.Thorough() && constructs[ki].group == "calleename" && li%6 != 0 {
+					continue // quick: the callee-name constructs on every sixth layout
+				}
 				modes := allModes
 				if !r.Thorough() && li != 0 && li != 6 {
 					modes = allModes[:1] // quick: the three entries only for two layouts
@@ -930,7 +946,7 @@ const probeSrc = `
     try { ev(src); } catch (e) {
       if (e === null || (typeof e !== "object" && typeof e !== "function")) return "value|" + String(e);
       var C = g[cname];
-      if (typeof C !== "function") return "value|" + String(e);
+      if (typeof C !== "function") { var s; try { s = String(e); } catch (x) { return "unprintable"; } return "value|" + s; }
       return ["error", e instanceof C, Object.getPrototypeOf(e) === C.prototype, e instanceof Error, String(e.name), typeof e.message,
               typeof e.message === "string" && e.message.length > 0, String(e) === e.name + ": " + e.message, String(e)].join("|");
     }
@@ -1005,6 +1021,17 @@ func runScript(r *engine.Run) {
 			ax["uncaught"] = got
 			// script side
 			S := ""
+			if k.unprintable {
+				// ToString of the thrown value throws: the catch clause still gets the value, and Run
+				// must hand back SOME error (which one is not specified by the statement)
+				if obs != "unprintable" {
+					r.Mismatch(engine.Mismatch{Key: key + "#script", Input: input, Expected: "unprintable", Observed: obs, Aux: ax})
+				}
+				if res.Panicked || res.Err == nil {
+					r.Mismatch(engine.Mismatch{Key: key + "#text", Input: input, Expected: "Run returns an error", Observed: got, Aux: ax})
+				}
+				continue
+			}
 			if k.nonErr {
 				if strings.HasPrefix(obs, "value|") {
 					S = obs[len("value|"):]
